@@ -7,16 +7,28 @@ import pyccolo as pyc
 
 FNAME = "<sandbox-p>"
 
+# a function of a file the tracers do NOT accept (a real module file outside the sandbox names): third-party functions follow its frames too
+import os
+import tempfile
+_EXT_DIR = tempfile.mkdtemp(prefix="pycc09-", dir="/var/tmp")
+EXT_FILE = os.path.join(_EXT_DIR, "c09_ext.py")
+with open(EXT_FILE, "w") as _f:
+    _f.write("def ext(cb):\n    a = 1\n    cb()\n    b = a + 1\n    return b\n")
+_ns = {}
+exec(compile(open(EXT_FILE).read(), EXT_FILE, "exec"), _ns)
+ext = _ns["ext"]
+TRACED_FILES = (FNAME, EXT_FILE)
+
 
 def make_third_party(kind, log, tag=""):
     """kind: 'self' (returns itself), 'local' (returns a distinct local function), 'selective' (declines frames named g*)"""
     def local(frame, evt, arg):
-        if frame.f_code.co_filename == FNAME:
+        if frame.f_code.co_filename in TRACED_FILES:
             log.append([tag + "L", evt, frame.f_code.co_name, frame.f_lineno])
         return local
 
     def glob(frame, evt, arg):
-        if frame.f_code.co_filename != FNAME:
+        if frame.f_code.co_filename not in TRACED_FILES:
             return None
         log.append([tag + "G", evt, frame.f_code.co_name, frame.f_lineno])
         if kind == "self":
@@ -51,7 +63,12 @@ def hist_env(case, log):
     tags = {id(v): k for k, v in third.items()}
 
     def tp_step(what):
-        sys.settrace(None if what == "off" else third[what])
+        if what.startswith("ext:"):
+            # the same action, taken while a frame of the non-accepted file is running
+            w = what[4:]
+            ext(lambda: sys.settrace(None if w == "off" else third[w]))
+        else:
+            sys.settrace(None if what == "off" else third[what])
     return third, tp_step, (lambda f: None if f is None else tags.get(id(f), "other"))
 
 
@@ -134,6 +151,9 @@ def traced_run(case, ci):
 
 
 def main():
+    import atexit
+    import shutil
+    atexit.register(lambda: shutil.rmtree(_EXT_DIR, ignore_errors=True))
     cases = json.load(sys.stdin)
     res = []
     for i, c in enumerate(cases):
